@@ -67,6 +67,9 @@ var clockDepFiles = [][2]string{
 	{"github.com/tstranex/u2f", "util.go"},
 	{"github.com/tstranex/u2f", "auth.go"},
 	{"github.com/tstranex/u2f", "register.go"},
+	// the validity-window test applied to IP-restricted certificates: without this
+	// the verdicts would depend on the date the checks are run
+	{"github.com/cloudflare/cfssl", "revoke/revoke.go"},
 }
 
 var clockFuncs = map[string]bool{
@@ -94,7 +97,7 @@ var yieldFuncs = map[string]bool{
 // fields of RuntimeState whose accesses are probed (sched variant)
 var probedFields = map[string]bool{
 	"localAuthData": true, "vipPushCookie": true, "pendingOauth2": true,
-	"totpLocalRateLimit": true, "Signer": true, "Ed25519Signer": true,
+	"totpLocalRateLimit": true, "Signer": true, "Ed25519Signer": true, "recentAuth": true,
 	"caCertDer": true, "selfRoleCaCertDer": true, "KeymasterPublicKeys": true,
 }
 
@@ -301,6 +304,7 @@ func rewritePackage(rel string) {
 		m := 0
 		if rel == "cmd/keymasterd" {
 			m += rewriteOnePass(f)
+			m += rewriteSQLDriver(f)
 		}
 		if *variant == "sched" && rel == "cmd/keymasterd" {
 			m += rewriteSched(fset, f)
@@ -308,10 +312,49 @@ func rewritePackage(rel string) {
 		if *variant == "sched" && loopYieldPkgs[rel] {
 			m += rewriteLoopYields(f)
 		}
+		if *variant == "sched" && schedLibStructs[rel] != nil {
+			m += rewriteSchedLib(f, schedLibStructs[rel])
+		}
 		if n+m > 0 {
 			writeFile(fset, f, p, filepath.Join(rel, filepath.Base(p)))
 		}
 	}
+	if rel == "cmd/keymasterd" {
+		// the driver name the repository's own sql.Open calls use (see rewriteSQLDriver)
+		op := outPath(filepath.Join(rel, "zz_vf_sqldriver.go"))
+		if err := os.WriteFile(op, []byte("package main\n\n// vfRepoSQLDriver is \"sqlite3\" unless the harness registered its fault-injecting wrapper.\nvar vfRepoSQLDriver = \"sqlite3\"\n"), 0o644); err != nil {
+			die("%v", err)
+		}
+		ov.Replace[filepath.Join(dir, "zz_vf_sqldriver.go")] = op
+	}
+}
+
+// rewriteSQLDriver: sql.Open("sqlite3", dsn) in the daemon becomes
+// sql.Open(vfRepoSQLDriver, dsn), so that the harness can open its databases
+// through the repository's OWN opening code (file name, DSN options, table
+// creation) and still count and fail the SQL operations.
+func rewriteSQLDriver(f *ast.File) int {
+	n := 0
+	ast.Inspect(f, func(nd ast.Node) bool {
+		call, ok := nd.(*ast.CallExpr)
+		if !ok || len(call.Args) != 2 {
+			return true
+		}
+		sel, ok := call.Fun.(*ast.SelectorExpr)
+		if !ok || sel.Sel.Name != "Open" {
+			return true
+		}
+		if id, ok := sel.X.(*ast.Ident); !ok || id.Name != "sql" {
+			return true
+		}
+		if lit, ok := call.Args[0].(*ast.BasicLit); ok && lit.Value == `"sqlite3"` {
+			call.Args[0] = ast.NewIdent("vfRepoSQLDriver")
+			n++
+		}
+		return true
+	})
+	stats["sql_open_calls"] += n
+	return n
 }
 
 // packages outside cmd/keymasterd whose functions get scheduling points at entry
@@ -353,6 +396,12 @@ func rewriteLoopYields(f *ast.File) int {
 		stats["loop_yield_points"] += n
 	}
 	return n
+}
+
+// schedLibStructs: library packages whose own locks become scheduling points and
+// whose lock-protected fields (probedFields) are probed for the race analysis
+var schedLibStructs = map[string]map[string]bool{
+	"lib/authenticators/okta": {"PasswordAuthenticator": true},
 }
 
 // onePassFuncs: background loops of the form `for { ...; time.Sleep(d) }`.  The
@@ -474,6 +523,16 @@ func rewriteDepFile(mod, relFile string) {
 	}
 	n := rewriteClock(f)
 	stats["clock_selectors_deps"] += n
+	if mod == "github.com/cloudflare/cfssl" {
+		ast.Inspect(f, func(nd ast.Node) bool {
+			if sel, ok := nd.(*ast.SelectorExpr); ok {
+				if id, ok := sel.X.(*ast.Ident); ok && id.Name == "vfclock" && sel.Sel.Name == "Now" {
+					sel.Sel = ast.NewIdent("NowTick")
+				}
+			}
+			return true
+		})
+	}
 	if *variant == "sched" && mod == "golang.org/x/time" {
 		// the limiter's own mutex becomes a scheduling point
 		n += rewriteSyncFields(f, map[string]bool{"Limiter": true})
